@@ -121,7 +121,16 @@ def _run_rot(case):
     resid["rot_g"] = fnum(float(abs(x1[3] - x0[3])))
     if all(not isinstance(m["n"], list) for m in case["cluster"]["members"]):
         resid["real_index_cluster_absorbs"] = fnum(float(abs(x0[1]) / x0[2]))
-    return {"resid": resid, "flags": {}, "fmax": fnum(float(np.abs(F).max()))}
+    # The extinction cross section comes from the real part of the forward amplitude (optical theorem). For clusters much smaller than
+    # the wavelength that real part is a small fraction of the amplitude, so the solver's amplitude error floor (~1e-7 relative, the
+    # accuracy of the translation-coefficient recurrences) is amplified by |S(0)| / |Re S(0)| in every quantity derived from C_ext.
+    import holopy as hp
+    from holopy.scattering import calc_scat_matrix
+    S = calc_scat_matrix(hp.detector_points(theta=[0.0], phi=[0.0]), s, theory=_ms(case), **a).values[0]
+    pol = np.asarray(o["illum_polarization"], dtype=float)[:2]
+    fwd = pol @ S @ pol / float(pol @ pol)
+    amp = float(abs(fwd) / max(abs(fwd.real), 1e-300))
+    return {"resid": resid, "flags": {}, "fmax": fnum(float(np.abs(F).max())), "fwd_amplification": fnum(amp)}
 
 
 def _run_one(case):
@@ -266,7 +275,7 @@ def _run_rule(case):
 
 # ------------------------------------------------------------------ oracle
 
-def _tol(k):
+def _tol(k, obs=None):
     # The interaction equations and both iterative solvers are mathematically independent of the listing order;
     # numerically only summation order differs, but the iteration stops on a residual criterion (eps), so for
     # ill-conditioned (high-index, nearly touching) clusters a rounding-level change can be amplified.
@@ -279,17 +288,21 @@ def _tol(k):
         return 1e-4
     if k == "rot_tight":
         return 3e-6
-    if k in ("rot_xsec", "rot_g", "real_index_cluster_absorbs"):
-        return 3e-5         # tight solver settings; extinction (optical theorem) and scattering (coefficient sum) are computed separately
+    if k == "rot_g":
+        return 3e-5
+    if k in ("rot_xsec", "real_index_cluster_absorbs"):
+        # tight solver settings; extinction (optical theorem) and scattering (coefficient sum) are computed separately, and the optical
+        # theorem amplifies the amplitude error floor by |S(0)|/|Re S(0)| (large only for clusters far smaller than the wavelength)
+        return min(1e-3, max(3e-5, 1e-6 * (obs or {}).get("fwd_amplification", 1.0)))
     return 1e-5   # one_vs_mie, see C02
 
 
 def judge(case, obs):
     out = []
     for k, v in obs["resid"].items():
-        if not v <= _tol(k):
+        if not v <= _tol(k, obs):
             out.append({"mech": "%s.%s.meth%d" % (case["kind"], k, case.get("meth", 1)),
-                        "detail": "%s=%.3e > %.1e; n=%s %s" % (k, v, _tol(k), obs.get("n"), {x: case[x] for x in case if x in ("meth", "tight", "alpha")})})
+                        "detail": "%s=%.3e > %.1e; n=%s %s" % (k, v, _tol(k, obs), obs.get("n"), {x: case[x] for x in case if x in ("meth", "tight", "alpha")})})
     for k, v in obs["flags"].items():
         if not v:
             out.append({"mech": "rule.%s.%s" % (k, case.get("what")), "detail": "expected %s, chosen %s; offset=%s how=%s" % (obs.get("expected"), obs.get("chosen"), case.get("offset"), case.get("how"))})
